@@ -10,10 +10,95 @@ from harness.q import Q, rs
 from harness.props import _expl
 
 
+def sparse_stream_fails(rng, dynamic, d, n_inner, T, storage_kind, imputer_kind):
+    """River-style SPARSE observations: an explained observation may omit a feature the model reads with `.get(f, 0)`. Independent
+    reference, written from the statement: for every feature the n inner predictions are made on the observation with ONLY that
+    feature replaced by a background value (checked on the inputs the model actually received), the contribution is their mean loss
+    minus the loss of the unperturbed prediction, and importance / variance are the configured running statistic of the
+    contributions / of the squared deviations from the updated estimate."""
+    import random as pyrandom
+    import warnings
+    from harness import rng as hrng
+    from ixai.explainer import IncrementalPFI
+    from ixai.storage import GeometricReservoirStorage, IntervalStorage
+    from ixai.imputer import MarginalImputer, DefaultImputer
+    names = ["a", 1, 2.5, "d"][:d]
+    coef = {f: Q(rng.randint(-3, 3) or 2) for f in names}
+    inputs = []
+
+    def pure_model(z):
+        return {"output": sum((coef[f] * z.get(f, Q(0)) for f in names), Q(1, 2))}
+
+    def model(z):
+        inputs.append(dict(z))
+        return pure_model(z)
+
+    def loss(y, p):
+        return (p["output"] - y) * (p["output"] - y)
+    alpha = Q(1, 3)
+    defaults = {f: Q(7 + i, 2) for i, f in enumerate(names)}
+    with warnings.catch_warnings():
+        warnings.simplefilter("ignore")
+        dr = hrng.Scripted(pyrandom.Random(rng.randrange(10 ** 9)), real_fn=lambda g: g.random())
+        with dr.installed():
+            st = GeometricReservoirStorage(size=3, store_targets=False, constant_probability=1.0) if storage_kind == "geom" else \
+                IntervalStorage(size=2, store_targets=False)
+            imp = DefaultImputer(model, dict(defaults)) if imputer_kind == "default" else MarginalImputer(model, imputer_kind, st)
+            kw = dict(dynamic_setting=True, smoothing_alpha=alpha) if dynamic else dict(dynamic_setting=False)
+            ex = IncrementalPFI(model, loss, list(names), storage=st, imputer=imp, n_inner_samples=n_inner, **kw)
+            est, var, nexp = {}, {}, 0
+            for t in range(T):
+                x = {f: Q(rng.randint(-4, 4), rng.randint(1, 3)) for f in names}
+                y = Q(rng.randint(-3, 3), 2)
+                sparse = t >= 1 and rng.random() < 0.5
+                if sparse:
+                    del x[rng.choice(names)]      # a sparse observation is explained but not stored (stored rows stay dense)
+                stored = [dict(r) for r in st.get_data()[0]]
+                del inputs[:]
+                try:
+                    ex.explain_one(dict(x), y, update_storage=not sparse)
+                except Exception as exn:
+                    return f"call {t + 1} ({'sparse' if sparse else 'dense'} observation {x}) raised {core.err_kind(exn)}: {exn}"
+                if t == 0:
+                    if inputs or ex.importance_values:
+                        return "the first observation did more than seed the storage"
+                    continue
+                nexp += 1
+                want_n = 1 + d * (1 if imputer_kind == "default" else n_inner)
+                if len(inputs) != want_n:
+                    return f"call {t + 1}: {len(inputs)} model evaluations, expected {want_n}"
+                if inputs[0] != x:
+                    return f"call {t + 1}: the unperturbed prediction was made on {inputs[0]} instead of the observation {x}"
+                base = loss(y, pure_model(x))
+                per = (len(inputs) - 1) // d
+                for i, f in enumerate(names):
+                    zs = inputs[1 + i * per:1 + (i + 1) * per]
+                    for z in zs:
+                        bg = [defaults[f]] if imputer_kind == "default" else [r[f] for r in stored]
+                        if not (f in z and any(z[f] == b for b in bg) and {k: v for k, v in z.items() if k != f} == {k: v for k, v in x.items() if k != f}):
+                            return (f"call {t + 1} ({'sparse' if sparse else 'dense'} observation {x}): an inner prediction for feature {f!r} was made on {z}, "
+                                    f"not on the observation with only {f!r} replaced by a background value {bg}")
+                    losses = [loss(y, pure_model(z)) for z in zs]
+                    c = sum(losses, Q(0)) / len(losses) - base
+                    old = est.get(f, Q(0))
+                    est[f] = (old + alpha * (c - old)) if dynamic else (old + (c - old) / nexp)
+                    dev = (c - est[f]) * (c - est[f])
+                    oldv = var.get(f, Q(0))
+                    var[f] = (oldv + alpha * (dev - oldv)) if dynamic else (oldv + (dev - oldv) / nexp)
+                got, gotv = dict(ex.importance_values), dict(ex.variances)
+                for f in names:
+                    if f not in got or got[f] != est[f]:
+                        return f"after call {t + 1} importance of {f!r} is {got.get(f)} but the running statistic of the contributions is {est[f]}"
+                    if f not in gotv or gotv[f] != var[f]:
+                        return f"after call {t + 1} variance of {f!r} is {gotv.get(f)} but the running statistic of the squared deviations is {var[f]}"
+    return None
+
+
 def run(tier="quick", seed=0, replay=None):
     chk = core.Check("C02", tier, seed, "proof")
     chk.rule = ("IncrementalPFI configurations from the explainer configuration space (see C01), streams of 3..6 calls with "
-                "per-call update_storage / n_inner overrides; additionally runs in which the model ignores one feature. "
+                "per-call update_storage / n_inner overrides; additionally runs in which the model ignores one feature, and streams with SPARSE "
+                "observations (a feature missing from the explained observation) against a reference written from the statement. "
                 "Non-trivial: at least one explained call; distinct by hash of (config, stream).")
     chk.trusted = ["Lean 4.33.0 kernel", "axioms propext/Classical.choice/Quot.sound",
                    "hand-written model Model/Explainer.lean (pfiStep) tied by this correspondence; tracker kernels by translation",
@@ -55,6 +140,18 @@ def run(tier="quick", seed=0, replay=None):
         if rig.steps[-1]["error"] is None and imp.get(ign) != "0":
             chk.violation("ignored-feature", f"IncrementalPFI {_expl.cfg_desc(cfg)}: the model ignores feature {rig.names[ign]!r} but "
                           f"its importance is {imp.get(ign)}", _expl.replay_payload(rig, cfg, 3))
+    # sparse (river-style) observations against a reference written from the statement
+    for i in range(chk.count(16, 160)):
+        dyn, d, n_inner = i % 2 == 0, chk.rng.randint(1, 4), chk.rng.randint(1, 3)
+        sk, ik = chk.rng.choice(["geom", "interval"]), chk.rng.choice(["joint", "product", "default"])
+        sd = chk.rng.randrange(10 ** 9)
+        dsc = {"sparse_stream": True, "dynamic": dyn, "d": d, "n_inner": n_inner, "storage": sk, "imputer": ik, "seed": sd}
+        chk.case(dsc, nontrivial=True, sample=(i < 1))
+        chk.stat("sparse_stream_runs")
+        import random as _r
+        f = sparse_stream_fails(_r.Random(sd), dyn, d, n_inner, 6, sk, ik)
+        if f:
+            chk.violation("sparse-observation", f"IncrementalPFI (dynamic={dyn}, d={d}, n_inner={n_inner}, {sk} storage, {ik} imputer, seed {sd}): {f}", dsc)
     _cv.__exit__(None, None, None)
     cover.gate(chk, _cv, only_functions=['IncrementalPFI', 'BaseIncrementalFeatureImportance.__init__', 'BaseIncrementalFeatureImportance.importance_values', 'BaseIncrementalFeatureImportance.variances', 'MultiValueTracker', 'MarginalImputer', 'DefaultImputer'])
     chk.exhaustive = False
